@@ -1294,7 +1294,7 @@ PARTS = {
         C02_NULLFORM_PART,
         (G, "gosym_part", dict(name="c02_union_tagging", entry="internal/zzverif.C02Union", args_quick=(2, 0, 0), args_thorough=(3, 1, 0),
                                extra_thorough=("-max-paths", "400000"), key_fn=c02_key,
-                               required_sites=("cpp-python-agree", "python-untagged-only-if-unambiguous", "python-tagged-only-if-ambiguous",
+                               required_sites=("generators-do-not-panic", "cpp-python-agree", "python-untagged-only-if-unambiguous", "python-tagged-only-if-ambiguous",
                                                "cpp-untagged-only-if-unambiguous", "cpp-tagged-only-if-ambiguous"),
                                desc="ndjsoncommon.GetJsonDataType + python/ndjson.typeConverter + cpp/ndjson.writeUnionConverters on a symbolic union "
                                     "(args: number of cases, leading null): a union is written untagged iff the documented JSON kinds of its cases are pairwise disjoint, and both generators agree",
